@@ -21,7 +21,7 @@ def run_check(args):
     env = dict(os.environ); env['ATSA_REPO'] = repo; env['ATSA_EVIDENCE_DIR'] = '/tmp/mx/ev-' + sid
     r = subprocess.run([os.path.join(V, 'check'), prop], env=env, capture_output=True, text=True)
     rules = sorted(set(re.findall(r'rule ([\w\-]+):', r.stdout)))
-    return prop, r.returncode, rules, r.stdout[-400:] if r.returncode not in (0, 1) else ''
+    return prop, r.returncode, rules, r.stdout[-400:] if r.returncode != 0 else ''
 results = {}
 for sid, patch, rev in items:
     repo = '/tmp/mx/' + MODE + '-' + sid
@@ -39,7 +39,7 @@ for sid, patch, rev in items:
         rest = list(ex.map(run_check, [(sid, repo, p) for p in props[1:]]))
     det = {}
     for prop, rc, rules, tail in [first] + rest:
-        if rc == 1: det[prop] = rules
+        if rc == 1 and rules: det[prop] = rules
         elif rc != 0: det[prop] = ['CHECK-ERROR rc=%d %s' % (rc, tail[-200:])]
     results[sid] = det
     print(sid, {k: v for k, v in det.items()}, flush=True)
